@@ -104,13 +104,13 @@ theorem C09_schedule_model_verdict_ok (cbs : Dir → Bool) (D : List Dir) (hn : 
 follows `tls`; both directives are in the `setup` class, hence (documented order) their callbacks
 have run before any request-handling directive is set up. -/
 theorem parsing_callbacks_regenerated :
-    Casket.Generated.parsingCallbacks = [("root", "hideCasketfile"), ("tls", "activateHTTPS")] ∧
-    (Casket.Generated.parsingCallbacks.all fun p => clsSetup.members.contains p.1) = true := by
+    Casket.Generated.registeredParsingCallbacks = [("root", "hideCasketfile"), ("tls", "activateHTTPS")] ∧
+    (Casket.Generated.registeredParsingCallbacks.all fun p => clsSetup.members.contains p.1) = true := by
   decide
 
 /-- test: root's callback sits between root's setup and browse's, whichever line is written first -/
 example :
-    let cbs : Dir → Bool := fun d => (Casket.Generated.parsingCallbacks.map (·.1)).contains d
+    let cbs : Dir → Bool := fun d => (Casket.Generated.registeredParsingCallbacks.map (·.1)).contains d
     let b1 : Block := ⟨["k"], [⟨"browse", ["browse", "/dir"]⟩, ⟨"root", ["root", "/srv"]⟩]⟩
     ((execEvents cbs Casket.Generated.directives [b1]).filter fun e => e.dir == "root" || e.dir == "browse" || e.dir == "tls")
       = [.setup ⟨"root", 0, 0, ["root", "/srv"]⟩, .cb "root", .cb "tls", .setup ⟨"browse", 0, 0, ["browse", "/dir"]⟩] := by
